@@ -1,11 +1,11 @@
 SPECIFICATION Spec
-CONSTANT MaxLines = 3
+CONSTANT MaxLines = 2
 CONSTANT ModelNums = {1}
 CONSTANT KeyIds = {1, 4}
 CONSTANT Occs <- OccsNull
 CONSTANT PointIds = {1, 4}
-CONSTANT IcNulls = {"?", "."}
-CONSTANT OcNulls = {"?", "."}
+CONSTANT IcNulls = {"?"}
+CONSTANT OcNulls = {"?"}
 CONSTANT DedupKeyIncludesModel = TRUE
 CONSTANT ClashWithinModelOnly = TRUE
 CONSTANT BothNullMarkers = FALSE
